@@ -126,6 +126,40 @@ def ev(t, env):
     raise Unrecognised("operator %s" % op)
 
 
+def sign_contradiction(pc):
+    """Is the path condition unsatisfiable by the trichotomy of signs alone?  Collects, per term x, the predicates that
+    only speak about the sign of x (is_zero, is_negative, is_positive, sign_is, a comparison of discr(sign(x)) with a
+    constant) and tries x < 0, x = 0, x > 0."""
+    groups = {}
+
+    def atom(p):
+        if not isinstance(p, T):
+            return None
+        if p.op in ("is_zero", "is_negative", "is_positive") and len(p.args) == 1:
+            return p.args[0], (lambda s, op=p.op: {"is_zero": s == 0, "is_negative": s < 0, "is_positive": s > 0}[op])
+        if p.op == "sign_is" and len(p.args) == 2 and isinstance(p.args[1], Const):
+            return p.args[0], (lambda s, n=p.args[1].v: {-1: "Minus", 0: "NoSign", 1: "Plus"}[s] == n)
+        if p.op in ("==", "Eq", "Ne") and len(p.args) == 2:
+            for x, y in ((p.args[0], p.args[1]), (p.args[1], p.args[0])):
+                if isinstance(x, T) and x.op == "discr" and isinstance(x.args[0], T) and x.args[0].op == "sign" and isinstance(y, Const):
+                    f = (lambda s, k=int(y.v): (s + 1) == k)
+                    return x.args[0].args[0], (f if p.op != "Ne" else (lambda s, f=f: not f(s)))
+        if p.op == "Not" and len(p.args) == 1:
+            a = atom(p.args[0])
+            if a is not None:
+                return a[0], (lambda s, f=a[1]: not f(s))
+        return None
+
+    for p, b in pc:
+        a = atom(p)
+        if a is not None:
+            groups.setdefault(repr(a[0]), []).append((a[1], bool(b)))
+    for x, atoms in groups.items():
+        if len(atoms) > 1 and not any(all(f(s) == b for f, b in atoms) for s in (-1, 0, 1)):
+            return True
+    return False
+
+
 def holds(pc, env):
     """Does the assignment satisfy every (predicate, outcome) pair of a path condition?"""
     for p, b in pc:
